@@ -90,6 +90,14 @@ theorem decl_local_while_blockwise (fuel : Nat) (c : Expr) (body : List Stmt) (r
   | zero => simp only [stmtS]; exact StackLE.refl _
   | succ f => simp only [stmtS]; exact (leInv f).whl c body st
 
+/-- WHILE [VAR] @x IN cursor: the loop variable declared with VAR and everything the iterations declared are gone -/
+theorem decl_local_while_in_blockwise (fuel x : Nat) (d : Bool) (vals : List SVal) (body : List Stmt) (rv : Option SVal) (st : St) :
+    StackLE (stmtI fuel (.foreach x d vals body) rv st).st.blocks st.blocks := by
+  rw [(stmt_refines fuel _ rv st).1]
+  cases fuel with
+  | zero => simp only [stmtS]; exact StackLE.refl _
+  | succ f => simp only [stmtS]; exact (leInv f).fe x d vals body st
+
 /-- evaluating an expression — in particular calling functions, to any depth — leaves no declaration behind -/
 theorem decl_local_call_blockwise (fuel : Nat) (e : Expr) (st : St) :
     StackLE (evalI fuel e st).2.blocks st.blocks := by
@@ -289,6 +297,14 @@ theorem while_catches_break_continue (fuel : Nat) (c : Expr) (body : List Stmt) 
   | zero => simp [stmtS]
   | succ f => simp only [stmtS]; exact whileS_catches f c body st
 
+/-- the same for the cursor loop WHILE @x IN cursor -/
+theorem while_in_catches_break_continue (fuel x : Nat) (d : Bool) (vals : List SVal) (body : List Stmt) (rv : Option SVal) (st : St) :
+    (stmtI fuel (.foreach x d vals body) rv st).outcome ≠ .brk ∧ (stmtI fuel (.foreach x d vals body) rv st).outcome ≠ .cont := by
+  rw [(stmt_refines fuel _ rv st).2]
+  cases fuel with
+  | zero => simp [stmtS]
+  | succ f => simp only [stmtS]; exact foreachS_catches f x d vals body st
+
 /-- RETURN v anywhere in a function body (at any depth of IF / WHILE: the flow is handed outward by
     nonterminate_skips_rest, if_passes_flow_on, return_leaves_loop) makes the call yield v; the callee's block is dropped -/
 theorem return_yields_call_value (fuel : Nat) (d : FDecl) (args : List SVal) (st s1 s2 : St) (v : SVal)
@@ -407,6 +423,15 @@ example : (execImpl 200 [
       .declFn 0 [] [.decl 0 (i 0), .while tt [.assign 0 (.bin .add (.var 0) (i 1)),
         .ifs [(.bin .eq (.var 0) (i 3), [.ret (.var 0)])] []], .print (i 99)],
       .print (.call 0 []), .print (i 5)]).out = [.int 3, .int 5] := by decide
+
+/-- WHILE VAR @v1 IN cur (rows 0,1,2): RETURN from inside the cursor loop ends the function; the loop variable is
+    local to the loop; without VAR the rows are assigned to the visible variable, which keeps the last one -/
+example : execImpl 200 [
+      .declFn 0 [] [.foreach 1 true [.int 0, .int 1, .int 2] [.print (.var 1),
+        .ifs [(.bin .eq (.var 1) (i 1), [.ret (.bin .add (.var 1) (i 10))])] []], .ret (i 9)],
+      .print (.call 0 []), .decl 0 (i 7), .foreach 0 false [.int 3, .int 4] [.ifs [(.bin .eq (.var 0) (i 3), [.cont])] [], .print (.var 0)],
+      .print (.var 0), .print (.var 1)]
+    = ⟨[.int 0, .int 1, .int 11, .int 4, .int 4], .err .undeclaredVar, [[(0, .int 4)]]⟩ := by decide
 
 /-- a function declared in a block is gone after it -/
 example : (execImpl 100 [.ifs [(tt, [.declFn 0 [] [.ret (i 1)], .print (.call 0 [])])] [], .print (.call 0 [])])
